@@ -90,10 +90,10 @@ claim("C06",
       "Lean 4 proof (history refinement of the sequential model) + differential correspondence", "DESIGN.md §5 C06")
 claim("C07",
       "Lean theorems KB.Props.C07 over the compaction pass of the worker loop and the execution of its delete calls under an ARBITRARY failure mask "
-      "(any individual failure, any crash point): reads at every revision >= R of every key are unchanged; only records <= R that are superseded / "
+      "(any individual failure of any class, condition errors on plain deletes included; any crash point): reads at every revision >= R of every key are unchanged; only records <= R that are superseded / "
       "tombstones / deleted indexes are removed; live keys keep index and newest version. Correspondence: histories x masks x crash points on three engines, "
       "reads before/after, writes after, skipped prefixes untouched.",
-      TB + "Unconditional Del never fails with a condition error (engine contract; witness of the negation proved); non-empty raw keys (witness for the empty key proved); "
+      TB + "Non-empty raw keys (witness for the empty key proved); "
       "expiry of event keys excluded (C17).",
       "Lean 4 proof (loop invariant: a tombstone goes only after all older versions went) + fault-mask differential correspondence", "DESIGN.md §5 C07")
 claim("C08",
